@@ -501,7 +501,7 @@ from ..core import Check, Layer, Outcome  # noqa: E402
 # class instead of being judged, so that the search continues past it.  A case carrying "no_exclude": true (the
 # saved replays of the findings) is always judged.  VERIF_C13_NO_EXCLUDE=D5,D6 switches the exclusion off for a run.
 EXCLUDE_D5 = True  # a foreign task.cancel() and a hosted scope's own cancellation pending on one task together
-EXCLUDE_D6 = True  # a scope cancelled while its host task is suspended exits without a CancelledError passing it
+EXCLUDE_D6 = False  # repaired in /repo (86899fe): the shape is searched again; a scope cancelled while its host task is suspended exits without a CancelledError passing it
 
 _off = {x.strip().upper() for x in (os.environ.get("VERIF_C13_NO_EXCLUDE") or "").split(",") if x.strip()}
 if "D5" in _off:
